@@ -12,7 +12,7 @@ def opt(name, default=None):
     return args[args.index(name)+1] if name in args else default
 meta = json.load(open(os.path.join(d, "meta.json")))
 prop = meta.get("property")
-checks = (opt("--checks") or prop).split(",")
+checks = (opt("--checks") or meta.get("checks") or prop).split(",")  # meta "checks": a change that another property's check reports
 tier = opt("--tier", "quick")
 V = os.path.dirname(os.path.dirname(os.path.abspath(__file__)))
 env = dict(os.environ, GOFLAGS="-mod=mod", GOPROXY="off", GOSUMDB="off", GOTOOLCHAIN="local")
